@@ -136,7 +136,7 @@ class IntOp(Case):
 class Unary(Case):
     prop = 'C08'
     name = 'C08.unary'
-    bounds = 'ops ~ neg hw zeroextend signextend split on sizes 0..6 + word boundaries to 65 (quick) / 0..12 + to 2048 (thorough); a+(-a)==0'
+    bounds = 'ops ~ neg hw zeroextend signextend split (both piece orders) on sizes 0..6 + word boundaries to 65 (quick) / 0..12 + to 2048 (thorough); a+(-a)==0'
     OPS = ['inv', 'neg', 'negsum', 'hw', 'zext', 'sext', 'split', 'copy']
 
     def shapes(self, tier):
@@ -183,7 +183,7 @@ class Unary(Case):
         if op == 'split':
             ps = a.split(shape['k'])
             from crysp.utils.operators import concat
-            return dict(ps=[st(p) for p in ps], back=st(concat(ps)) if ps else None, a=st(a))
+            return dict(ps=[st(p) for p in ps], be=[st(p) for p in a.split(shape['k'], bigend=True)], back=st(concat(ps)) if ps else None, a=st(a))
 
     def spec(self, shape, args):
         a, = args
@@ -216,7 +216,7 @@ class Unary(Case):
                 sz = min(k, m - i)
                 ps.append([(a >> i) & M(sz), sz, M(sz)])
                 i += k
-            return dict(ps=ps, back=A if ps else None, a=A)
+            return dict(ps=ps, be=ps[::-1], back=A if ps else None, a=A)
 
 
 class Shift(Case):
